@@ -100,4 +100,72 @@ theorem go5 (n : Nat) (h : 19 * 2^50 ≤ 20 * n) (hn : n < 999 * 2^60) : twoSig 
     · simp only [twoSig]; omega
     · apply go6 n _ hn
       simp only [Nat.reducePow]; omega
+
+theorem go4 (n : Nat) (h : 19 * 2^40 ≤ 20 * n) (hn : n < 999 * 2^60) : twoSig (goNew n [4,5,6]) := by
+  have := level_facts n (2^40) (by decide)
+  rw [goNew]
+  simp only [Nat.reducePow, Nat.reduceMul] at this h ⊢
+  generalize rhe (10*n) 1099511627776 = t at *
+  generalize rhe n 1099511627776 = w at *
+  split
+  · simp only [twoSig]; omega
+  · split
+    · simp only [twoSig]; omega
+    · apply go5 n _ hn
+      simp only [Nat.reducePow]; omega
+
+theorem go3 (n : Nat) (h : 19 * 2^30 ≤ 20 * n) (hn : n < 999 * 2^60) : twoSig (goNew n [3,4,5,6]) := by
+  have := level_facts n (2^30) (by decide)
+  rw [goNew]
+  simp only [Nat.reducePow, Nat.reduceMul] at this h ⊢
+  generalize rhe (10*n) 1073741824 = t at *
+  generalize rhe n 1073741824 = w at *
+  split
+  · simp only [twoSig]; omega
+  · split
+    · simp only [twoSig]; omega
+    · apply go4 n _ hn
+      simp only [Nat.reducePow]; omega
+
+theorem go2 (n : Nat) (h : 19 * 2^20 ≤ 20 * n) (hn : n < 999 * 2^60) : twoSig (goNew n [2,3,4,5,6]) := by
+  have := level_facts n (2^20) (by decide)
+  rw [goNew]
+  simp only [Nat.reducePow, Nat.reduceMul] at this h ⊢
+  generalize rhe (10*n) 1048576 = t at *
+  generalize rhe n 1048576 = w at *
+  split
+  · simp only [twoSig]; omega
+  · split
+    · simp only [twoSig]; omega
+    · apply go3 n _ hn
+      simp only [Nat.reducePow]; omega
+
+theorem go1 (n : Nat) (h : 19 * 2^10 ≤ 20 * n) (hn : n < 999 * 2^60) : twoSig (goNew n [1,2,3,4,5,6]) := by
+  have := level_facts n (2^10) (by decide)
+  rw [goNew]
+  simp only [Nat.reducePow, Nat.reduceMul] at this h ⊢
+  generalize rhe (10*n) 1024 = t at *
+  generalize rhe n 1024 = w at *
+  split
+  · simp only [twoSig]; omega
+  · split
+    · simp only [twoSig]; omega
+    · apply go2 n _ hn
+      simp only [Nat.reducePow]; omega
+
+/-- C20 (candidate repair): every count below 999 Ei is shown with at least two significant
+    digits (or is a plain integer below 1000) and never reaches the fallback format -/
+theorem new_twoSig (n : Nat) (hn : n < 999 * 2^60) : twoSig (countNew n) := by
+  unfold countNew
+  split
+  · trivial
+  · exact go1 n (by simp only [Nat.reducePow]; omega) hn
+
+/-- length of the rendered string: digits + separator/prefix characters -/
+def width : Out → Nat
+  | .plain n => (toString n).length + 1
+  | .tenths _ _ => 6          -- "d.d Xi"
+  | .whole w _ => (toString w).length + 3
+  | .fallback w => (toString w).length + 4
+
 end Readable
